@@ -86,17 +86,55 @@ func ChanWait(cs ...ChanCase) {
 	r.point(func() bool { return anyReady(cs) }, "channel operation", false)
 }
 
-// Spawn registers a thread from setup code that does not hold the *Run (the
-// Stopper shim). Only valid in controller context before the first point.
+// Spawn registers a thread on behalf of library code that does not hold the
+// *Run (the Stopper shim): in controller context before the first point it is
+// Run.Go; from a running thread it starts a new thread of the controlled
+// execution (enabled from the next scheduling point on).
 func Spawn(name string, fn func()) bool {
 	r := current.Load()
 	if r == nil {
 		return false
 	}
-	if r.cur != nil {
-		panic("vsched: a thread started a goroutine during a controlled execution (" + name + "): not supported")
+	if r.aborting {
+		return true // the execution is being torn down: the new thread never runs
 	}
-	r.Go(fmt.Sprintf("%s#%d", name, len(r.threads)), fn)
+	name = fmt.Sprintf("%s#%d", name, len(r.threads))
+	if r.cur == nil {
+		r.Go(name, fn)
+		return true
+	}
+	t := &thread{id: len(r.threads), name: name, fn: fn, wake: make(chan struct{}, 1)}
+	r.threads = append(r.threads, t)
+	r.wg.Add(1)
+	go r.threadMain(t)
+	return true
+}
+
+// Quiescent reports whether every thread other than the calling one is
+// finished or disabled (to be used inside wait predicates: "the system has
+// nothing left to do").
+func Quiescent() bool {
+	r := current.Load()
+	if r == nil {
+		return true
+	}
+	if r.inQuiescent {
+		return true // another quiescence waiter counts as idle
+	}
+	self := r.evalThread
+	if self == nil {
+		self = r.cur
+	}
+	r.inQuiescent = true
+	defer func() { r.inQuiescent = false }()
+	for _, t := range r.threads {
+		if t == self || t.done {
+			continue
+		}
+		if t.pred == nil || t.pred() {
+			return false
+		}
+	}
 	return true
 }
 
